@@ -336,6 +336,10 @@ fn set_show(run: &mut Run, rng: &mut Rng, kinds: &[(String, String, Option<Strin
             if r_sql.is_err() {
                 continue;
             }
+            // SHOW itself needs information_schema; switching it off is not observable through SHOW
+            if key == "datafusion.catalog.information_schema" && value_of(&cfg, key).as_deref() == Some("false") {
+                continue;
+            }
             let want = value_of(&cfg, key);
             let got = show_sql(&rt, &ctx, key);
             run.oracle(got.as_ref().ok() == Some(&want), &format!("set-then-show key={key} text={}", cps(&t)), &format!("SET {key} = {t:?}; SHOW reports {got:?}, ConfigOptions reports {want:?}"));
